@@ -2,6 +2,7 @@
 and the three VM signature handlers, over the executable curves `Ecdsa.k1` / `Ecdsa.r1`. -/
 import FuelVerif.Basic.Loop
 import FuelVerif.Model.Ecdsa
+import FuelVerif.Basic.Sha256
 import FuelVerif.Model.CryptoOps
 namespace FuelVerif.Drv.C17
 open FuelVerif FuelVerif.Ecdsa FuelVerif.CryptoOps
@@ -14,6 +15,10 @@ def fmtUnit : Except Error Unit → String
   | .ok _ => "ok"
   | .error e => e.name
 
+def okEq : Except SignPanic Bytes → Bytes → Bool
+  | .ok s, t => s == t
+  | .error _, _ => false
+
 def fmtSig : Except SignPanic Bytes → String
   | .ok s => toHex s
   | .error e => e.name
@@ -21,11 +26,15 @@ def fmtSig : Except SignPanic Bytes → String
 /-- the nonce that reproduces `(r, s)` for key `d` and digest `z`: `k = s⁻¹ (z + r d)` -/
 def nonceOf (n d z r s : Nat) : Nat := invN n s * ((z + r * d % n) % n) % n
 
-def signWith (E : Curve) (sign : Nat → Nat → Bytes → Except SignPanic Bytes) (d msg sig : Bytes) : String :=
+/-- the deterministic model signature; in addition the explicit-nonce model used by the theorems must reproduce the
+implementation's signature from the nonce that signature implies -/
+def signWith (E : Curve) (sign : Nat → Nat → Bytes → Except SignPanic Bytes)
+    (signDet : Nat → Bytes → Except SignPanic Bytes) (d msg sig : Bytes) : String :=
   let d := beNat d
   let (sig', _) := decodeSignature sig
   let k := nonceOf E.n d (msgScalar E.n msg) (sigR sig') (sigS sig')
-  fmtSig (sign d k msg)
+  let viaK := if okEq (sign d k msg) sig then "" else " explicit-nonce-model-differs"
+  fmtSig (signDet d msg) ++ viaK
 
 def memView (f : List Nat) : Option MemView :=
   match f with
@@ -53,11 +62,11 @@ def recoverOp (recover : Bytes → Bytes → Except Error Bytes) (ws : List Stri
 def handle : List String → String
   | ["k1sign", d, msg, sig] =>
     match ofHex d, ofHex msg, ofHex sig with
-    | some d, some msg, some sig => signWith k1 (secpSign k1) d msg sig
+    | some d, some msg, some sig => signWith k1 (secpSign k1) (secpSignDet k1 Sha256.sha256) d msg sig
     | _, _, _ => "bad-op"
   | ["r1sign", d, msg, sig] =>
     match ofHex d, ofHex msg, ofHex sig with
-    | some d, some msg, some sig => signWith r1 (r1Sign r1) d msg sig
+    | some d, some msg, some sig => signWith r1 (r1Sign r1) (r1SignDet r1 Sha256.sha256) d msg sig
     | _, _, _ => "bad-op"
   | ["k1pub", d] => match ofHex d with | some d => toHex (publicKey k1 (beNat d)) | none => "bad-op"
   | ["r1pub", d] => match ofHex d with | some d => toHex (publicKey r1 (beNat d)) | none => "bad-op"
